@@ -110,3 +110,31 @@ def macro_flags(tu, prefix):
             except ValueError:
                 pass
     return out
+
+
+def null_store_nodes(g, field_text):
+    """CFG nodes that store NULL into `field_text`, directly or through the Py_CLEAR expansion
+    (`T *tmp = &field; ...; *tmp = NULL`)"""
+    out = []
+    ptrs = set()
+    norm = lambda s: s.replace('(', '').replace(')', '')
+    for n in g.nodes:
+        if n.ast is None:
+            continue
+        for l, r, op, _x in cx.assignments(n.ast):
+            if op == 'init' and norm(cx.render(r, keep_casts=False)) == norm('&' + field_text):
+                ptrs.add(cx.lhs_text(l))
+    for n in g.nodes:
+        if n.ast is None:
+            continue
+        for l, r, op, _x in cx.assignments(n.ast):
+            if op != '=' or not is_nullish(r):
+                continue
+            lt = cx.lhs_text(l)
+            if norm(lt) == norm(field_text) or (lt.startswith('*') and lt[1:] in ptrs):
+                out.append(n)
+    return out
+
+
+def is_nullish(e):
+    return cx.is_null(e)
